@@ -17,7 +17,7 @@ RUNPY = os.path.join(HERE, "run.py")
 
 TIERS = {
     # property: tier -> (runs, wall budget seconds for the main batch, hash-seed pair fraction)
-    "C20": {"quick": (1600, 75, 0.06), "thorough": (40000, 1500, 1.0)},
+    "C20": {"quick": (2400, 90, 0.05), "thorough": (60000, 1800, 0.5)},
     "C17": {"quick": (6000, 50, 0.05), "thorough": (200000, 1200, 0.2)},
     "C15": {"quick": (600, 80, 0.05), "thorough": (15000, 1500, 0.2)},
 }
@@ -91,7 +91,7 @@ def _worker(prop, vseed, indices, outfile, deadline, overrides):
             for k in ("ref_forks", "o1_compared", "o3_groups"):
                 agg[k] += st[k]
             for kk, v in res["probes"].items():
-                if kk == "max_nest_depth":
+                if kk in ("max_nest_depth", "module_fingerprints"):
                     agg["probes"][kk] = max(agg["probes"].get(kk, 0), v)
                 else:
                     agg["probes"][kk] = agg["probes"].get(kk, 0) + v
@@ -228,7 +228,7 @@ def merge_aggs(aggs):
             for kk, v in a[k].items():
                 m[k][kk] = m[k].get(kk, 0) + v
         for kk, v in a["probes"].items():
-            m["probes"][kk] = max(m["probes"].get(kk, 0), v) if kk == "max_nest_depth" else m["probes"].get(kk, 0) + v
+            m["probes"][kk] = max(m["probes"].get(kk, 0), v) if kk in ("max_nest_depth", "module_fingerprints") else m["probes"].get(kk, 0) + v
         for k in ("sched_sigs", "share_sigs", "store_states"):
             m[k].update(a[k])
         m["harness_errors"].extend(a["harness_errors"])
